@@ -16,6 +16,7 @@ import (
 	"path/filepath"
 	"time"
 
+	"github.com/oasisprotocol/oasis-core/go/storage/mkvs"
 	"github.com/oasisprotocol/oasis-core/go/storage/mkvs/checkpoint"
 	"github.com/oasisprotocol/oasis-core/go/storage/mkvs/node"
 )
@@ -317,4 +318,217 @@ func (rn *runner) inflightCase(idx int, backend string, st stats) {
 		return
 	}
 	r.Nontrivial(fmt.Sprintf("inflight/%s/%s/%d", backend, variant, idx))
+}
+
+// inflightDupCase: the state root and the I/O root of one version are restored one after the
+// other with the same restorer (as the runtime checkpoint sync does). A DUPLICATE submission of
+// chunk k of the first checkpoint is blocked in Read while another caller restores chunk k and
+// the first checkpoint completes; the second checkpoint's restore is started; then the duplicate
+// goes on. It must not be counted for the second checkpoint.
+func (rn *runner) inflightDupCase(idx int, backend string, st stats) {
+	r := rn.r
+	ctx := context.Background()
+	rng := r.Rand(960, uint64(idx))
+	w := inflightWitness{Seed: r.Seed, Case: idx, Backend: backend, Variant: "duplicate-in-flight-across-completion-and-next-restore"}
+	step := func(f string, a ...any) { w.Steps = append(w.Steps, fmt.Sprintf(f, a...)) }
+	harness := func(what string, err error) {
+		r.Inconclusive("in-flight duplicate case %d (%s): harness step %s failed: %v", idx, backend, what, err)
+	}
+	mk := func(tag string, n int) (model, []kv) {
+		m := model{}
+		for i := 0; i < n; i++ {
+			m[fmt.Sprintf("%s-%04d", tag, rng.IntN(4*n))] = []byte(fmt.Sprintf("%s-value-%d", tag, rng.IntN(1000)))
+		}
+		return m, m.sorted()
+	}
+	src, err := openDB(backend, "")
+	if err != nil {
+		harness("open source", err)
+		return
+	}
+	defer src.Close()
+	mA, oA := mk("s", 60+rng.IntN(60))
+	mB, oB := mk("i", 60+rng.IntN(60))
+	// Both roots of version 1 in one source database: commit both, finalize together.
+	var roots []node.Root
+	for _, x := range []struct {
+		m  model
+		o  []kv
+		ty node.RootType
+	}{{mA, oA, node.RootTypeState}, {mB, oB, node.RootTypeIO}} {
+		tr := mkvs.New(nil, src, x.ty)
+		for _, e := range x.o {
+			if err = tr.Insert(ctx, e.K, e.V); err != nil {
+				harness("insert", err)
+				return
+			}
+		}
+		_, h, cerr := tr.Commit(ctx, testNs, 1)
+		tr.Close()
+		if cerr != nil {
+			harness("commit", cerr)
+			return
+		}
+		roots = append(roots, node.Root{Namespace: testNs, Version: 1, Type: x.ty, Hash: h})
+	}
+	if err = src.Finalize(roots); err != nil {
+		harness("source finalize", err)
+		return
+	}
+	dir, err := os.MkdirTemp(r.Scratch(), "inflightdup")
+	if err != nil {
+		harness("tempdir", err)
+		return
+	}
+	defer os.RemoveAll(dir)
+	metaA, chA, err := checkpointOf(ctx, src, filepath.Join(dir, "a"), roots[0], 200, 1)
+	if err != nil {
+		harness("checkpoint A", err)
+		return
+	}
+	metaB, chB, err := checkpointOf(ctx, src, filepath.Join(dir, "b"), roots[1], 200, 1)
+	if err != nil {
+		harness("checkpoint B", err)
+		return
+	}
+	w.ChunksA, w.ChunksB = len(chA), len(chB)
+	if len(chA) < 3 || len(chB) < 3 {
+		st.add("inflight/skipped_too_few_chunks", 1)
+		return
+	}
+	dst, err := openDB(backend, "")
+	if err != nil {
+		harness("open target", err)
+		return
+	}
+	defer dst.Close()
+	rs, err := checkpoint.NewRestorer(dst)
+	if err != nil {
+		harness("restorer", err)
+		return
+	}
+	viol := func(sig, what string) {
+		r.Violation(sig, fmt.Sprintf("in-flight duplicate case %d (%s): %s", idx, backend, what), w)
+	}
+	if err = dst.StartMultipartInsert(1); err != nil {
+		viol("c12/inflight/"+backend+"/start-multipart-failed", err.Error())
+		return
+	}
+	if err = rs.StartRestore(ctx, metaA); err != nil {
+		viol("c12/inflight/"+backend+"/start-restore-failed", err.Error())
+		return
+	}
+	fl := rng.IntN(min(len(chA), len(chB)))
+	w.InFlight = fl
+	gr := newGatedReader(chA[fl])
+	type res struct {
+		done bool
+		err  error
+		pan  any
+	}
+	resCh := make(chan res, 1)
+	go func() {
+		var x res
+		defer func() {
+			if p := recover(); p != nil {
+				x.pan = p
+			}
+			resCh <- x
+		}()
+		x.done, x.err = rs.RestoreChunk(ctx, uint64(fl), gr)
+	}()
+	select {
+	case <-gr.entered:
+	case x := <-resCh:
+		viol("c12/honest-chunk-rejected/"+backend+"/gated/"+errClass(x.err), fmt.Sprintf("RestoreChunk(%d) returned without reading the chunk: done=%v err=%v panic=%v", fl, x.done, x.err, x.pan))
+		return
+	case <-time.After(gatedWatchdog):
+		r.Inconclusive("in-flight duplicate case %d (%s): gated reader not entered", idx, backend)
+		return
+	}
+	step("duplicate RestoreChunk(%d) of the state checkpoint blocked inside Read", fl)
+	// All chunks of A (including fl, by another caller): A completes.
+	doneA := false
+	for _, i := range rng.Perm(len(chA)) {
+		d, cerr := rs.RestoreChunk(ctx, uint64(i), bytes.NewReader(chA[i]))
+		if cerr != nil {
+			close(gr.release)
+			<-resCh
+			viol("c12/honest-chunk-rejected/"+backend+"/"+errClass(cerr), fmt.Sprintf("RestoreChunk(%d) of the state checkpoint while a duplicate of chunk %d is in flight: %v", i, fl, cerr))
+			return
+		}
+		doneA = doneA || d
+	}
+	if !doneA {
+		close(gr.release)
+		<-resCh
+		viol("c12/restore-done-flag-wrong/"+backend, "all chunks of the state checkpoint restored (one of them also pending as a duplicate), done never reported")
+		return
+	}
+	step("state checkpoint complete (%d chunks)", len(chA))
+	if err = rs.StartRestore(ctx, metaB); err != nil {
+		close(gr.release)
+		<-resCh
+		viol("c12/inflight/"+backend+"/start-restore-failed", "I/O checkpoint: "+err.Error())
+		return
+	}
+	step("restore of the I/O checkpoint started")
+	close(gr.release)
+	var x res
+	select {
+	case x = <-resCh:
+	case <-time.After(gatedWatchdog):
+		r.Inconclusive("in-flight duplicate case %d (%s): blocked RestoreChunk did not return after release", idx, backend)
+		return
+	}
+	st.add("inflight/cases/"+backend+"/"+w.Variant, 1)
+	st.add("inflight/straggler_result/"+errClass(x.err), 1)
+	step("duplicate released: done=%v err=%v", x.done, x.err)
+	if x.pan != nil {
+		viol("panic/restore-chunk-after-abort/"+backend, fmt.Sprint(x.pan))
+		return
+	}
+	doneEarly := x.done
+	for _, i := range rng.Perm(len(chB)) {
+		if i == fl || doneEarly {
+			continue
+		}
+		d, cerr := rs.RestoreChunk(ctx, uint64(i), bytes.NewReader(chB[i]))
+		if cerr != nil {
+			viol("c12/honest-chunk-rejected/"+backend+"/"+errClass(cerr), fmt.Sprintf("RestoreChunk(%d) of the I/O checkpoint after the late duplicate returned: %v", i, cerr))
+			return
+		}
+		if d {
+			doneEarly = true
+			step("RestoreChunk(%d) of the I/O checkpoint returned done=true; its chunk %d was never submitted", i, fl)
+		}
+	}
+	if doneEarly {
+		what := fmt.Sprintf("done=true was reported for the I/O checkpoint although its chunk %d was never submitted (the late duplicate of chunk %d of the finished state checkpoint was counted for it)", fl, fl)
+		if ferr := dst.Finalize(roots); ferr == nil {
+			got, rerr := readAll(ctx, dst, roots[1])
+			what += fmt.Sprintf("; the caller's Finalize succeeded, read-back of the I/O root: %d of %d entries, err %v", len(got), len(mB), rerr)
+		} else {
+			what += fmt.Sprintf("; Finalize: %v", ferr)
+		}
+		viol("c12/restorer/done-reported-with-chunk-never-submitted/"+backend, what)
+		return
+	}
+	d, cerr := rs.RestoreChunk(ctx, uint64(fl), bytes.NewReader(chB[fl]))
+	if cerr != nil || !d {
+		viol("c12/inflight/"+backend+"/last-chunk-of-b-not-accepted", fmt.Sprintf("RestoreChunk(%d) of the I/O checkpoint (the last one): done=%v err=%v", fl, d, cerr))
+		return
+	}
+	if err = dst.Finalize(roots); err != nil {
+		viol("c12/inflight/"+backend+"/finalize-of-b-failed", err.Error())
+		return
+	}
+	for k, m := range []model{mA, mB} {
+		got, rerr := readAll(ctx, dst, roots[k])
+		if rerr != nil || diffContents(got, m.sorted()) != "" {
+			viol("c12/restore-mismatch/"+backend+"/after-late-duplicate", fmt.Sprintf("root %d of the version restored with a late duplicate in flight does not read back: %d of %d entries, err %v %s", k, len(got), len(m), rerr, diffContents(got, m.sorted())))
+			return
+		}
+	}
+	r.Nontrivial(fmt.Sprintf("inflight/%s/%s/%d", backend, w.Variant, idx))
 }
